@@ -135,6 +135,10 @@ func Run(tier string, seed int64, outDir string) *common.Meta {
 		meta.Fail("C04/twin/differs", "the two mains print different output for -concurrency=1", nil)
 	}
 
+	stageT := map[string]float64{}
+	t0 := time.Now()
+	mark := func(name string) { stageT[name] = time.Since(t0).Seconds(); t0 = time.Now() }
+	mark("1-concurrency-sweep")
 	// 2. race detector: CLI under varying GOMAXPROCS, analyzer driver parallel vs sequential
 	raceRuns := []struct {
 		exe  string
@@ -220,6 +224,7 @@ func Run(tier string, seed int64, outDir string) *common.Meta {
 			}
 		}
 	}
+	mark("2b-examples-under-race-detector")
 	// 2c. concurrent passes sharing the user rule files: the dynamic ruleguard checker (rules loaded by every pass's
 	// constructor) through the parallel driver, repeatedly from a cold process, against the sequential driver and the CLI
 	{
@@ -268,6 +273,7 @@ func Run(tier string, seed int64, outDir string) *common.Meta {
 		}
 		meta.Distribution["user_rule_lines_sequential_driver"] = len(seqAn)
 	}
+	mark("2c-user-rules")
 	anOut := map[int][]string{}
 	for i, r := range raceRuns {
 		_, stderr, code, err := common.RunSplit(600*time.Second, base, append(append([]string(nil), env...), r.env...), filepath.Join(bin, r.exe), r.args...)
@@ -303,6 +309,8 @@ func Run(tier string, seed int64, outDir string) *common.Meta {
 		}
 	}
 
+	mark("2-race-runs")
+	meta.Distribution["stage_seconds"] = stageT
 	// 3. model cases: per file, the printed lines (any concurrency) = checker-order concatenation of
 	//    the sequential in-process results
 	fset, pkgs, err := load.Packages(base, env, "./...")
